@@ -15,6 +15,7 @@ NL = "strict"
 def bounds(tier):
     return {"documents": len(docs(0)), "values": VALUES,
             "tree_depth": 2 if tier == "quick" else 3, "graph_depth": 3 if tier == "quick" else 4,
+            "quick_tree": "level 2 extends histories whose first operation is a deletion or uses a core value %r; every operation is tried at both levels" % (CORE_VALUES,),
             "graph_alphabet": "values x, 'x\\n y' only; no case-variant spelling"}
 
 
@@ -28,7 +29,7 @@ def assumptions():
             "the model's own field reader defines 'value' (first line trimmed, comment lines dropped)"]
 
 
-VALUES = ["x", "", " pad ", "x\n y", "x\n y\n\tz", "\n y", "\n y\n z", "x\n y \t"]
+VALUES = ["x", "", " pad ", "x\n y", "x\n y\n\tz", "\n y", "\n y\n z", "x\n y \t", "x\n", "x\n y\n"]
 
 
 def layouts(name, v, w):
@@ -158,6 +159,14 @@ def large_docs(seed):
     return [d1, strip_final_newline(d1)]
 
 
+CORE_VALUES = ("x", "", "x\n y", "\n y", "x\n y \t", "t1", "y", _doc.INVALID_VALUES[0])
+
+
+def extend_quick(op):
+    """quick tier: every operation is tried after every history of core operations (all operations at level 1)"""
+    return op[0] == "del" or op[3] in CORE_VALUES
+
+
 def units(tier, seed):
     out = [{"doc": d, "i": i} for i, d in enumerate(docs(seed))]
     out += [{"doc": d, "i": 2000 + i, "large": True} for i, d in enumerate(large_docs(seed))]
@@ -203,7 +212,7 @@ def run_unit(u, tier, seed):
     base = {"doc": u["doc"]}
     if u.get("large"):
         td, gd = (1, 0) if tier == "quick" else (2, 0)
-    _doc.explore(part, u["doc"], ops_full, td, gd, NL, base, ops_small)
+    _doc.explore(part, u["doc"], ops_full, td, gd, NL, base, ops_small, extend_quick if tier == "quick" else None)
     part.sample(dict(base, history=[ops_full(_doc.from_spec(u["doc"]))[3]]))
     return part
 
